@@ -354,6 +354,28 @@ Proof.
   destruct (no_admin_step c s cl E) as [H _]. rewrite H. reflexivity.
 Qed.
 
+Lemma tokens_set_model : forall u s s' token k v,
+  NoDup (u_tokens u) -> index_of token (u_tokens u) = Some k ->
+  n_owner (a_nft s') = upd (n_owner (a_nft s)) token v ->
+  eqb_list eqb_on (ob_tokens (observe u s')) (set_nth (ob_tokens (observe u s)) k v) = true.
+Proof.
+  intros u s s' token k v Nt Ek H. cbn [observe ob_tokens]. rewrite H.
+  erewrite set_nth_map; [|exact Nt|exact Ek]. apply eqb_list_refl. apply eqb_on_refl.
+Qed.
+
+Lemma approved_unset_model : forall u s s' token k,
+  NoDup (u_tokens u) -> index_of token (u_tokens u) = Some k ->
+  a_now s' = a_now s -> n_appr (a_nft s') = upd (n_appr (a_nft s)) token None ->
+  eqb_list eqb_on (ob_approved (observe u s')) (set_nth (ob_approved (observe u s)) k None) = true.
+Proof.
+  intros u s s' token k Nt Ek Hn H. cbn [observe ob_approved].
+  erewrite set_nth_map; [|exact Nt|exact Ek].
+  replace (map (approved_of (a_now s') (a_nft s')) (u_tokens u))
+    with (map (fun y => if N.eqb y token then None else approved_of (a_now s) (a_nft s) y) (u_tokens u)).
+  - apply eqb_list_refl. apply eqb_on_refl.
+  - apply map_ext. intros t. unfold approved_of. rewrite H, Hn. unfold upd. destruct (N.eqb t token); reflexivity.
+Qed.
+
 Lemma appr_lapse : forall (f : nftst) now (n : N) l,
   eqb_list (fun x o' => match x with None => true | Some _ => eqb_on x o' end)
     (map (approved_of (now + Z.of_N n) f) l) (map (approved_of now f) l) = true.
@@ -526,7 +548,8 @@ Proof.
     change (ah_minter h) with (minter c).
     destruct (has_role s caller (minter c) && has_auth auths caller); [|discriminate]. inversion E; subst s'; clear E.
     rewrite (same_mem_b u s) by reflexivity. rewrite (same_admin_b u s) by reflexivity. rewrite (same_ra_b u s) by reflexivity. cbn [andb].
-    rewrite (obs_token_model u _ token W2). cbn [set_nft a_nft n_owner]. rewrite upd_eq. rewrite eqb_on_refl.
+    destruct (index_of_in token _ W2) as [kt Ekt]. rewrite Ekt.
+    rewrite (tokens_set_model u s _ token kt (Some to) Nt Ekt) by reflexivity.
     rewrite (same_appr_b u s) by reflexivity. reflexivity.
   - (* MultiRoleAction *)
     destruct (guard_semantics c s) as [_ [_ [_ [_ [_ [G _]]]]]]. specialize (G caller auths). unfold step in G. rewrite E in G. cbn [snd] in G.
@@ -548,7 +571,9 @@ Proof.
     inversion E; subst s'; clear E.
     rewrite (same_mem_b u s) by reflexivity. rewrite (same_admin_b u s) by reflexivity. rewrite (same_ra_b u s) by reflexivity. cbn [andb].
     cbn [eqb_on]. rewrite N.eqb_refl. cbn [Bool.eqb andb].
-    rewrite (obs_token_model u _ token W2). unfold burnt. cbn [set_nft a_nft n_owner]. rewrite upd_eq. reflexivity.
+    destruct (index_of_in token _ W2) as [kt Ekt]. rewrite Ekt.
+    rewrite (tokens_set_model u s _ token kt None Nt Ekt) by reflexivity.
+    rewrite (approved_unset_model u s _ token kt Nt Ekt) by reflexivity. reflexivity.
   - (* BurnFrom *) destruct Hwc as [[W1 W2] W3]. rewrite burn_from_closed in E.
     rewrite (obs_has_model u s spender _ HC W1), (obs_token_model u s token W3), (obs_appr_model u s token W3). change (ah_burner h) with (burner c).
     destruct (has_role s spender (burner c)); [|discriminate]. destruct (has_auth auths spender); [|discriminate]. cbn [andb] in *.
@@ -561,7 +586,9 @@ Proof.
     inversion E; subst s'; clear E.
     rewrite (same_mem_b u s) by reflexivity. rewrite (same_admin_b u s) by reflexivity. rewrite (same_ra_b u s) by reflexivity. cbn [andb].
     cbn [eqb_on]. rewrite N.eqb_refl. cbn [Bool.eqb andb].
-    rewrite (obs_token_model u _ token W3). unfold burnt. cbn [set_nft a_nft n_owner]. rewrite upd_eq. reflexivity.
+    destruct (index_of_in token _ W3) as [kt Ekt]. rewrite Ekt.
+    rewrite (tokens_set_model u s _ token kt None Nt Ekt) by reflexivity.
+    rewrite (approved_unset_model u s _ token kt Nt Ekt) by reflexivity. reflexivity.
   - (* Approve *) destruct Hwc as [[W1 W2] W3].
     destruct (approve_guards _ _ _ _ _ _ _ _ E) as [G1 [G2 [G3 [G4 [G5 [G6 [G7 G8]]]]]]].
     rewrite (same_mem_b u s) by (intros; unfold has_role; destruct G7 as [-> _]; reflexivity).
@@ -574,17 +601,78 @@ Proof.
     cbn [observe ob_approved a_now a_nft]. apply appr_lapse.
 Qed.
 
-Lemma mon_model : forall h cs s i,
-  wf_aheader h = true -> forallb (wf_call (ah_u h)) cs = true -> Inv s -> Cl (ah_u h) s ->
-  mon_from h (observe (ah_u h) s) (model_items (ah_cfg h) (ah_u h) s cs) i = 0%N.
+
+Lemma forallb_forall_map_calls : forall h cs s,
+  forallb (wf_call (ah_u h)) cs = true ->
+  forallb (fun it : aitem => wf_call (ah_u h) (fst (fst it))) (model_items (ah_cfg h) (ah_u h) s cs) = true.
 Proof.
-  intros h cs. induction cs as [|cl r IH]; intros s i Hwf Hw HI HC; [reflexivity|].
+  intros h cs. induction cs as [|cl r IH]; intros s Hw; [reflexivity|]. cbn [forallb] in Hw. apply andb_prop in Hw.
+  cbn [model_items]. destruct (step (ah_cfg h) s cl) as [s' ok]. cbn [forallb fst]. rewrite (proj1 Hw). apply IH. tauto.
+Qed.
+
+(* ---- the hand-over clauses (C07's monitor on the admin projection) hold on every model step ---- *)
+Module CM := Proofs.C07Monitor.
+
+Lemma R_ext : forall q st st', now st = now st' -> rts st = rts st' -> CM.R q st -> CM.R q st'.
+Proof. intros q st st' A B H. unfold CM.R in *. rewrite <- A, <- B. exact H. Qed.
+
+Lemma proj_hand_call : forall cl, proj_call cl = hand_call cl.
+Proof. intros cl; destruct cl; reflexivity. Qed.
+
+Lemma wf_c07 : forall h, wf_aheader h = true -> C07.wf_header (c07_hd h) = true.
+Proof. intros h H. unfold wf_aheader in H. rewrite !andb_true_iff in H. unfold C07.wf_header, c07_hd. cbn. tauto. Qed.
+
+Lemma hand_step_model : forall h s cl q,
+  wf_aheader h = true -> CM.R q (hand_state s) ->
+  exists q', hand_step h q (cl, snd (step (ah_cfg h) s cl), observe (ah_u h) (fst (step (ah_cfg h) s cl))) = Some q' /\
+             CM.R q' (hand_state (fst (step (ah_cfg h) s cl))).
+Proof.
+  intros h s cl q Hwf HR.
+  destruct (CM.mon_step_model (c07_hd h) q (hand_state s) (hand_call cl) (wf_c07 h Hwf) HR) as [q' [M1 M2]].
+  destruct (hand_step_proj (ah_cfg h) s cl) as [A [B C]]. cbn zeta in A, B, C.
+  change (C07.h_kind (c07_hd h)) with AC in *. change (C07.h_cfg (c07_hd h)) with (host (ah_cfg h)) in *.
+  exists q'. split.
+  - unfold hand_step, proj_item. rewrite proj_hand_call. rewrite <- M1. f_equal. f_equal. f_equal; [f_equal|].
+    + destruct cl; cbn [is_admin_call]; rewrite C; reflexivity.
+    + unfold RoleTransfer.observe, RoleTransfer.pending_view. cbn [observe ob_admin ob_pending]. rewrite A, B. reflexivity.
+  - eapply R_ext; [| |exact M2]; [exact A|exact B].
+Qed.
+
+Lemma calls_of_model_items : forall c u cs s, map (fun it => fst (fst it)) (model_items c u s cs) = cs.
+Proof.
+  intros c u cs. induction cs as [|cl r IH]; intros s; [reflexivity|]. cbn [model_items].
+  destruct (step c s cl) as [s' ok]. cbn. rewrite IH. reflexivity.
+Qed.
+
+Lemma mon_model : forall h cs s q i,
+  wf_aheader h = true -> forallb (wf_call (ah_u h)) cs = true -> Inv s -> Cl (ah_u h) s -> CM.R q (hand_state s) ->
+  mon_from h (observe (ah_u h) s) q (model_items (ah_cfg h) (ah_u h) s cs) i = 0%N.
+Proof.
+  intros h cs. induction cs as [|cl r IH]; intros s q i Hwf Hw HI HC HR; [reflexivity|].
   cbn [forallb] in Hw. apply andb_prop in Hw. destruct Hw as [Hw1 Hw2].
   cbn [model_items]. pose proof (mon_step_model h s cl Hwf Hw1 HI HC) as M.
-  destruct (step (ah_cfg h) s cl) as [s' ok] eqn:E. cbn [fst snd] in M. cbn [mon_from]. rewrite M. cbn [snd].
+  destruct (hand_step_model h s cl q Hwf HR) as [q' [H1 H2]].
+  pose proof (step_spec (ah_cfg h) s cl HI) as [HI' _].
+  pose proof (Cl_step (ah_cfg h) (ah_u h) s cl Hw1 HI HC) as HC'.
+  destruct (step (ah_cfg h) s cl) as [s' ok] eqn:E. cbn [fst snd] in *. cbn [mon_from]. rewrite M, H1. cbn [snd].
   apply IH; auto.
-  - pose proof (step_spec (ah_cfg h) s cl HI) as [HI' _]. rewrite E in HI'. exact HI'.
-  - pose proof (Cl_step (ah_cfg h) (ah_u h) s cl Hw1 HI HC) as HC'. rewrite E in HC'. exact HC'.
+Qed.
+
+Lemma init_obs_model : forall h, init_obs h = observe (ah_u h) (ah_init h).
+Proof. intros h. reflexivity. Qed.
+
+Lemma R_init_access : forall h, CM.R (C07.mon_init (c07_hd h)) (hand_state (ah_init h)).
+Proof. intros h. unfold CM.R, C07.mon_init, hand_state, ah_init, Access.init. cbn. repeat split; auto. Qed.
+
+Theorem check_model : forall h cs,
+  wf_aheader h = true -> forallb (wf_call (ah_u h)) cs = true ->
+  check (observe_model h cs) = (0%N, 0%N, 0%N).
+Proof.
+  intros h cs Hwf Hw. unfold check, observe_model. rewrite Hwf, eqb_aobs_refl. cbn [andb].
+  rewrite diff_model.
+  rewrite forallb_forall_map_calls by exact Hw. rewrite <- init_obs_model, eqb_aobs_refl. cbn [andb].
+  rewrite init_obs_model.
+  rewrite (mon_model h cs (ah_init h) _ 0%N Hwf Hw (Proofs.Access.inv_init _ _) (Cl_init _ _ _) (R_init_access h)). reflexivity.
 Qed.
 
 (* ---- the allow-list contract ---- *)
@@ -645,16 +733,73 @@ Proof.
   - cbn [al_step]. exact (Guarded user op au false Hw).
 Qed.
 
-Lemma al_mon_model : forall h cs s i,
-  wf_aheader (alh h) = true -> forallb (wf_alcall (ah_u (alh h))) cs = true ->
-  Proofs.Access.Inv (al_s s) -> Cl (ah_u (alh h)) (al_s s) ->
-  al_mon_from h (al_observe (ah_u (alh h)) s) (al_model_items (alh_cfg h) (ah_u (alh h)) s cs) i = 0%N.
+Lemma advance0_obs : forall c u s, observe u (fst (step c s (Advance 0))) = observe u s.
 Proof.
-  intros h cs. induction cs as [|cl r IH]; intros s i Hwf Hw HI HC; [reflexivity|].
+  intros c u s. unfold step. cbn [exec fst]. unfold observe. cbn [a_now a_rt a_role_admin a_has a_member a_count a_existing a_nft].
+  change (Z.of_N 0) with 0. rewrite Z.add_0_r. reflexivity.
+Qed.
+
+Lemma al_hand_step_model : forall h s cl q,
+  wf_aheader (alh h) = true -> CM.R q (hand_state (al_s s)) ->
+  exists q', hand_step (alh h) q (al_proj (cl, snd (al_step (alh_cfg h) s cl), al_observe (ah_u (alh h)) (fst (al_step (alh_cfg h) s cl)))) = Some q' /\
+             CM.R q' (hand_state (al_s (fst (al_step (alh_cfg h) s cl)))).
+Proof.
+  intros h s cl q Hwf HR.
+  assert (Neutral : forall s', al_s s' = al_s s ->
+            exists q', hand_step (alh h) q (Advance 0, true, observe (ah_u (alh h)) (al_s s')) = Some q' /\ CM.R q' (hand_state (al_s s'))).
+  { intros s' Hs. destruct (hand_step_model (alh h) (al_s s) (Advance 0) q Hwf HR) as [q' [A B]].
+    rewrite advance0_obs in A. exists q'. rewrite Hs. split.
+    - unfold step in A. cbn [exec snd] in A. exact A.
+    - eapply R_ext; [| |exact B]; unfold step; cbn; [lia|reflexivity]. }
+  destruct cl as [c|user op au|user op au]; cbn [al_step].
+  - cbn [alh_cfg al_c]. destruct (hand_step_model (alh h) (al_s s) c q Hwf HR) as [q' [A B]].
+    destruct (step (ah_cfg (alh h)) (al_s s) c) as [s' ok]. cbn [fst snd al_proj al_observe al_s] in *. eauto.
+  - destruct (manager_guard (alh_cfg h) s op au); cbn [fst snd al_proj al_observe]; apply Neutral; reflexivity.
+  - destruct (manager_guard (alh_cfg h) s op au); cbn [fst snd al_proj al_observe]; apply Neutral; reflexivity.
+Qed.
+
+Lemma al_mon_model : forall h cs s q i,
+  wf_aheader (alh h) = true -> forallb (wf_alcall (ah_u (alh h))) cs = true ->
+  Proofs.Access.Inv (al_s s) -> Cl (ah_u (alh h)) (al_s s) -> CM.R q (hand_state (al_s s)) ->
+  al_mon_from h (al_observe (ah_u (alh h)) s) q (al_model_items (alh_cfg h) (ah_u (alh h)) s cs) i = 0%N.
+Proof.
+  intros h cs. induction cs as [|cl r IH]; intros s q i Hwf Hw HI HC HR; [reflexivity|].
   cbn [forallb] in Hw. apply andb_prop in Hw. destruct Hw as [Hw1 Hw2].
   cbn [al_model_items]. destruct (al_mon_step_model h s cl Hwf Hw1 HI HC) as [M [HI' HC']].
-  destruct (al_step (alh_cfg h) s cl) as [s' ok] eqn:E. cbn [fst snd] in *. cbn [al_mon_from]. rewrite M. cbn [snd].
+  destruct (al_hand_step_model h s cl q Hwf HR) as [q' [H1 H2]].
+  destruct (al_step (alh_cfg h) s cl) as [s' ok] eqn:E. cbn [fst snd] in *. cbn [al_mon_from]. rewrite M, H1. cbn [snd].
   apply IH; auto.
+Qed.
+
+Lemma al_calls_wf : forall h cs s,
+  forallb (wf_alcall (ah_u (alh h))) cs = true ->
+  forallb (fun it : alitem => wf_alcall (ah_u (alh h)) (fst (fst it))) (al_model_items (alh_cfg h) (ah_u (alh h)) s cs) = true.
+Proof.
+  intros h cs. induction cs as [|cl r IH]; intros s Hw; [reflexivity|]. cbn [forallb] in Hw. apply andb_prop in Hw.
+  cbn [al_model_items]. destruct (al_step (alh_cfg h) s cl) as [s' ok]. cbn [forallb fst]. rewrite (proj1 Hw). apply IH. tauto.
+Qed.
+
+(* the initial observation demanded by the monitor is the constructor's state of the model *)
+Lemma al_init_obs_model : forall h, wf_alheader h = true -> al_init_obs h = al_observe (ah_u (alh h)) (alh_init h).
+Proof.
+  intros h Hwa. unfold wf_alheader in Hwa. destruct (ah_admin (alh h)) as [adm|] eqn:Ea; [|discriminate].
+  rewrite !andb_true_iff in Hwa. destruct Hwa as [[[A1 A2] A3] A4]. apply negb_true_iff in A4.
+  unfold al_init_obs, al_observe, alh_init, al_init. rewrite Ea. cbn [al_s al_allowed alh_cfg al_c al_manager].
+  unfold step. cbn [exec]. unfold grant_role, has_auth. cbn [existsb]. rewrite N.eqb_refl. cbn [orb guard bind].
+  unfold admin_or_admin_role. cbn [Access.init a_rt holder]. rewrite N.eqb_refl. cbn [orb guard bind].
+  unfold has_role at 1. cbn [Access.init a_has is_some].
+  unfold add_to_role_enumeration. cbn [Access.init a_count a_existing length N.of_nat].
+  change (N.eqb 0 0) with true. cbv iota.
+  rewrite N.eqb_sym in A4. change (max_roles (ah_cfg (alh h))) with (ah_max_roles (alh h)). rewrite A4. cbn [bind]. change (Z.of_N 0 + 1 <=? MAXU32) with true. cbn [guard bind fst].
+  f_equal.
+  - unfold observe. cbn [a_rt a_now a_role_admin a_has a_member a_count a_existing a_nft holder pending tlive_at n_owner n_appr app].
+    f_equal.
+    + apply map_ext. intros r. unfold observe_role. cbn [a_role_admin a_has a_member a_count]. unfold upd, upd2.
+      destruct (N.eqb r (alh_manager h)) eqn:Er; cbn [N.add]; f_equal;
+        try reflexivity;
+        try (apply map_ext; intros a; rewrite ?Er, ?andb_true_r, ?andb_false_r; reflexivity);
+        try (cbn; rewrite ?Er, ?andb_true_r, ?andb_false_r; cbn; rewrite ?Er, ?andb_false_r; reflexivity).
+  - apply map_ext. intros a. unfold upd. destruct (N.eqb a adm); reflexivity.
 Qed.
 
 Theorem check_model_allow : forall h cs,
@@ -662,10 +807,10 @@ Theorem check_model_allow : forall h cs,
   check (observe_model_allow h cs) = (0%N, 0%N, 0%N).
 Proof.
   intros h cs Hwf Hwa Hw. unfold check, observe_model_allow. rewrite Hwf, Hwa, eqb_alobs_refl. cbn [andb].
-  rewrite al_diff_model.
-  destruct (wf_parts (alh h) Hwf) as [Na [Nr _]].
-  unfold wf_alheader in Hwa. destruct (ah_admin (alh h)) as [adm|] eqn:Ea; [|discriminate].
-  rewrite !andb_true_iff in Hwa. destruct Hwa as [[A1 A2] A3].
+  rewrite al_diff_model. rewrite (al_calls_wf h cs _ Hw). rewrite <- (al_init_obs_model h Hwa), eqb_alobs_refl. cbn [andb].
+  rewrite (al_init_obs_model h Hwa).
+  pose proof Hwa as Hwa'. unfold wf_alheader in Hwa'. destruct (ah_admin (alh h)) as [adm|] eqn:Ea; [|discriminate].
+  rewrite !andb_true_iff in Hwa'. destruct Hwa' as [[[A1 A2] A3] A4].
   set (g := Grant (alh_macct h) (alh_manager h) adm [adm]).
   assert (Hg : wf_call (ah_u (alh h)) g = true).
   { unfold g. cbn [wf_call]. unfold inb. rewrite A1, A2, A3. reflexivity. }
@@ -673,8 +818,13 @@ Proof.
   { unfold alh_init, al_init. rewrite Ea. cbn [al_s alh_cfg al_c al_manager]. apply step_spec. apply Proofs.Access.inv_init. }
   assert (HC : Cl (ah_u (alh h)) (al_s (alh_init h))).
   { unfold alh_init, al_init. rewrite Ea. cbn [al_s alh_cfg al_c al_manager]. apply Cl_step; [exact Hg|apply Proofs.Access.inv_init|apply Cl_init]. }
-  unfold al_observe at 1. cbn [fst]. rewrite (obs_consistent_model _ _ HI HC Na Nr).
-  rewrite (al_mon_model h cs (alh_init h) 0%N Hwf Hw HI HC). reflexivity.
+  assert (HR : CM.R (C07.mon_init (c07_hd (alh h))) (hand_state (al_s (alh_init h)))).
+  { unfold alh_init, al_init. rewrite Ea. cbn [al_s alh_cfg al_c al_manager].
+    destruct (hand_step_proj (ah_cfg (alh h)) (Access.init (ah_start (alh h)) (Some adm)) g) as [P1 [P2 _]].
+    eapply R_ext; [| |apply (R_init_access (alh h))].
+    - unfold g in P1. cbn [hand_state now]. unfold ah_init. rewrite Ea. rewrite <- P1. cbn. lia.
+    - unfold g in P2. cbn [hand_state rts]. unfold ah_init. rewrite Ea. rewrite <- P2. cbn. reflexivity. }
+  rewrite (al_mon_model h cs (alh_init h) _ 0%N Hwf Hw HI HC HR). reflexivity.
 Qed.
 
 (* ---- the ownable half ---- *)
@@ -703,28 +853,16 @@ Proof.
     + rewrite Hs. cbn [fst snd]. rewrite Eh. cbn. destruct cl; reflexivity.
 Qed.
 
-Lemma own_model : forall k c cs s i, 1 <= min_temp_ttl c -> J s ->
-  own_from (holder (rts s)) (C07.model_items k c s cs) i = 0%N.
+Lemma own_model : forall hd cs s q i, C07.wf_header hd = true -> J s -> CM.R q s ->
+  own_from hd (holder (rts s)) q (C07.model_items (C07.h_kind hd) (C07.h_cfg hd) s cs) i = 0%N.
 Proof.
-  intros k c cs. induction cs as [|cl r IH]; intros s i Hmin HJ; [reflexivity|].
-  cbn [C07.model_items]. pose proof (own_step_model k c s cl Hmin HJ) as M.
-  destruct (RoleTransfer.step k c s cl) as [s' o] eqn:E. cbn [fst snd] in M. cbn [own_from]. rewrite M.
-  cbn [snd fst RoleTransfer.observe]. apply IH; [exact Hmin|].
-  pose proof (J_step k c s cl HJ) as HJ'. rewrite E in HJ'. exact HJ'.
-Qed.
-
-(* ---- the pinned statement ---- *)
-Theorem check_model : forall h cs,
-  wf_aheader h = true -> forallb (wf_call (ah_u h)) cs = true ->
-  check (observe_model h cs) = (0%N, 0%N, 0%N).
-Proof.
-  intros h cs Hwf Hw. unfold check, observe_model. rewrite Hwf, eqb_aobs_refl. cbn [andb].
-  rewrite diff_model.
-  destruct (wf_parts h Hwf) as [Na [Nr _]].
-  assert (HI : Proofs.Access.Inv (ah_init h)) by apply Proofs.Access.inv_init.
-  assert (HC : Cl (ah_u h) (ah_init h)) by apply Cl_init.
-  rewrite (obs_consistent_model _ _ HI HC Na Nr).
-  rewrite (mon_model h cs (ah_init h) 0%N Hwf Hw HI HC). reflexivity.
+  intros hd cs. induction cs as [|cl r IH]; intros s q i Hwf HJ HR; [reflexivity|].
+  assert (Hmin : 1 <= min_temp_ttl (C07.h_cfg hd)) by (unfold C07.wf_header in Hwf; cbn; lia).
+  cbn [C07.model_items]. pose proof (own_step_model (C07.h_kind hd) (C07.h_cfg hd) s cl Hmin HJ) as M.
+  destruct (CM.mon_step_model hd q s cl Hwf HR) as [q' [H1 H2]].
+  pose proof (J_step (C07.h_kind hd) (C07.h_cfg hd) s cl HJ) as HJ'.
+  destruct (RoleTransfer.step (C07.h_kind hd) (C07.h_cfg hd) s cl) as [s' o] eqn:E. cbn [fst snd] in *.
+  cbn [own_from]. rewrite M, H1. cbn [snd fst RoleTransfer.observe]. apply IH; assumption.
 Qed.
 
 Theorem check_model_own : forall hd cs,
@@ -733,7 +871,6 @@ Theorem check_model_own : forall hd cs,
 Proof.
   intros hd cs Hwf. unfold check, observe_model_own. rewrite Hwf.
   rewrite Proofs.C07Monitor.diff_model.
-  assert (Hmin : 1 <= min_temp_ttl (C07.h_cfg hd)) by (unfold C07.wf_header in Hwf; cbn; lia).
-  pose proof (own_model (C07.h_kind hd) (C07.h_cfg hd) cs (C07.h_init hd) 0%N Hmin (J_init _ _)) as M.
+  pose proof (own_model hd cs (C07.h_init hd) (C07.mon_init hd) 0%N Hwf (J_init _ _) (CM.R_init hd)) as M.
   unfold C07.h_init in *. cbn [RoleTransfer.init rts holder] in M. rewrite M. reflexivity.
 Qed.
